@@ -517,26 +517,23 @@ def check_dssr_eval(chk) -> bool:
     stubs = enum_stubs(repo)
     members = stubs["LeontisWesthof"].__members__
 
-    def resolve(structure, name):
+    def resolve(structure, name, *more):
         return _dssr_resolve(name)
 
     def match_lw(x):
         return ("LeontisWesthof", x) if isinstance(x, str) and x in members else None
 
-    loops = [l for l in pd_.node.body if isinstance(l, ast.For)]
-    first = pd_.node.body.index(loops[0]) if loops else None
-    if first is None:
-        chk.error("dssr-eval", pd_.where, "pair/stack loops of parse_dssr_output not found")
-        return False
-    # the statements that initialise the result lists come before the first loop; the document is bound to the name the loops read
+    # fragment fallback (used only when the whole function cannot be evaluated): the loops that read the parsed document, the
+    # statements that initialise the result lists before them, the name the document is bound to
+    top_loops = [l for l in pd_.node.body if isinstance(l, ast.For)]
     docname = None
-    for c2 in ast.walk(loops[0].iter):
-        if isinstance(c2, ast.Call) and isinstance(c2.func, ast.Attribute) and c2.func.attr == "get" and isinstance(c2.func.value, ast.Name):
-            docname = c2.func.value.id
-    inits = [s2 for s2 in pd_.node.body[:first] if isinstance(s2, (ast.Assign, ast.AnnAssign)) and isinstance(getattr(s2, "value", None), (ast.List,))]
-    if docname is None:
-        chk.error("dssr-eval", pd_.where, "name of the parsed document not found")
-        return False
+    first = None
+    for l in top_loops:
+        for c2 in ast.walk(l.iter):
+            if docname is None and isinstance(c2, ast.Call) and isinstance(c2.func, ast.Attribute) and c2.func.attr == "get" and isinstance(c2.func.value, ast.Name):
+                docname = c2.func.value.id
+                first = pd_.node.body.index(l)
+    inits = [s2 for s2 in pd_.node.body[: first or 0] if isinstance(s2, (ast.Assign, ast.AnnAssign)) and isinstance(getattr(s2, "value", None), (ast.List,))]
     params = [a.arg for a in pd_.node.args.args]
     bad: List[Tuple[Any, str]] = []
     hist: List[str] = []
@@ -546,24 +543,48 @@ def check_dssr_eval(chk) -> bool:
         from sa.world import Obj, opener
 
         files: Dict[str, str] = {}
-        proc = Process(repo, M, extra=dict(stubs, match_dssr_name_to_residue=resolve, match_dssr_lw=match_lw, BasePair=lambda *a: ("BasePair",) + a, Stacking=lambda *a: ("Stacking",) + a, BaseInteractions=lambda *a: ("BaseInteractions",) + a, open=opener(files), orjson=Obj("<orjson>", loads=json.loads)))
-        block = inits + pd_.node.body[first:]
-        whole = [True]  # the whole function (reading the file through the stubs for open / orjson.loads) as long as that is evaluable, else the loops only
+        # the structure: one residue per name that resolves (full_name = the name), so that the code's own way of resolving names - a
+        # scan, an index built once, a helper - is evaluated with the import; residues print as the labels of DSSR_KNOWN
+        residues = [Obj(lab, full_name=name) for name, lab in DSSR_KNOWN.items()]
+        structure = Obj("<structure>", residues=residues)
+        common = dict(stubs, match_dssr_lw=match_lw, BasePair=lambda *a: ("BasePair",) + a, Stacking=lambda *a: ("Stacking",) + a, BaseInteractions=lambda *a: ("BaseInteractions",) + a, open=opener(files), orjson=Obj("<orjson>", loads=json.loads))
+        proc = Process(repo, M, extra=common)
+        # modes, tried in this order until one is evaluable: the whole function with the code's own name matching / the whole function
+        # with name matching as a stub (dssr-name decides the matcher) / the loops only, with the stub
+        mode = ["own-matcher"]
+
+        def plain(v):
+            if isinstance(v, Obj):
+                return repr(v)
+            if isinstance(v, tuple):
+                return tuple(plain(x) for x in v)
+            if isinstance(v, list):
+                return [plain(x) for x in v]
+            return v
 
         def evaluate(doc, fresh: bool = True):
-            if fresh:
-                proc.restart()
-            if whole[0]:
-                files["dssr.json"] = json.dumps(doc)
+            nonlocal proc
+            while True:
+                if fresh:
+                    proc.restart()
                 try:
-                    return "return", proc.world["parse_dssr_output"]("dssr.json", "S")
+                    if mode[0] in ("own-matcher", "stub-matcher"):
+                        files["dssr.json"] = json.dumps(doc)
+                        return "return", plain(proc.world["parse_dssr_output"]("dssr.json", structure if mode[0] == "own-matcher" else "S"))
+                    if docname is None:
+                        raise Unknown("the loops that read the parsed document were not found")
+                    env = {p: v for p, v in zip(params[1:], ("S", None))}
+                    env[docname] = doc
+                    kind, val = BlockEval(repo, M, env, world=proc.world).run(inits + pd_.node.body[first:])
+                    return kind, plain(val)
                 except Unknown:
-                    whole[0] = False
-                    if fresh:
-                        proc.restart()
-            env = {p: v for p, v in zip(params[1:], ("S", None))}
-            env[docname] = doc
-            return BlockEval(repo, M, env, world=proc.world).run(block)
+                    if mode[0] == "own-matcher":
+                        mode[0] = "stub-matcher"
+                        proc = Process(repo, M, extra=dict(common, match_dssr_name_to_residue=resolve))
+                    elif mode[0] == "stub-matcher":
+                        mode[0] = "loops"
+                    else:
+                        raise
 
         alone = []
         for doc in DSSR_DOCS:
@@ -597,7 +618,7 @@ def check_dssr_eval(chk) -> bool:
         not bad,
         "dssr-eval",
         pd_.where,
-        f"{len(DSSR_DOCS)} documents: a pair is kept iff both residues and the class resolve; a stacking is recorded exactly for the members adjacent in a stack's own list that both resolve (an unresolved member breaks the chain, it is not skipped over; stacks are not joined)",
+        f"{len(DSSR_DOCS)} documents ({'the whole import with the code own way of resolving names in a structure of ' + str(len(DSSR_KNOWN)) + ' residues' if mode[0] == 'own-matcher' else 'the whole import, name matching as a stub' if mode[0] == 'stub-matcher' else 'the loops over the parsed document'}): a pair is kept iff both residues and the class resolve; a stacking is recorded exactly for the members adjacent in a stack's own list that both resolve (an unresolved member breaks the chain, it is not skipped over; stacks are not joined)",
         "DSSR import differs from the statement: " + "; ".join(f"{str(d)[:70]}: {m}" for d, m in bad[:2]),
         K(pd_, "dssr-eval"),
         found=[m for d, m in bad[:4]],
